@@ -77,15 +77,26 @@ func dumpUniverse(u types.Universe) string {
 	return list(it...)
 }
 
+// c01lastFirst: the last package (which may import the others) is loaded first, so that the others
+// are first seen as dependencies; they are then requested one call at a time
+var c01lastFirst = false
+
 func c01(g *Gen) {
 	n := g.N(120, 3000)
 	for i := 0; i < n; i++ {
+		if i%4 == 1 {
+			prelookupCase(g, i, 1+g.R.Intn(3), "C01")
+		}
 		npk := 1 + g.R.Intn(4)
+		c01lastFirst = i%5 == 3
 		// import paths that begin like the spelling of an anonymous type ("chan ...", "func(...")
 		pgModule = []string{"ex.test", "ex.test", "ex.test", "ex.test", "ex.test", "chantest.example", "functional"}[i%7]
 		prog, cls := g.genProgram(c01ver == 2, npk, 1+g.R.Intn(3))
 		if pgModule != "ex.test" {
 			cls = append(cls, "path-starts-like-anonymous-type")
+		}
+		if c01lastFirst && npk > 1 && c01ver == 2 {
+			cls = append(cls, "importer-loaded-first-then-the-rest-one-by-one")
 		}
 		chk, err := typeCheck(prog)
 		if err != nil {
@@ -100,4 +111,5 @@ func c01(g *Gen) {
 		g.Emit("C01.universe", in, dumpUniverse(u), append(cls, "universe")...)
 	}
 	pgModule = "ex.test"
+	c01lastFirst = false
 }
